@@ -9,7 +9,11 @@
         counter in order, image afterwards)
    `outcome` = Panic when the call panics before doing anything (assert on the partition index,
    debug-build overflow).  Definitions only. *)
-Require Import V.Base.MachineInt V.Generated.GenConsts V.Model.LogBase V.Model.Descriptor V.Model.Reader.
+Require Import V.Base.MachineInt.
+Require Import V.Generated.GenConsts.
+Require Import V.Model.LogBase.
+Require Import V.Model.Descriptor.
+Require Import V.Model.Reader.
 Open Scope Z_scope.
 
 (* The image as far as polling is concerned.  im_pos is the subscriber position counter (a slot of the
